@@ -113,11 +113,22 @@ def add_obligations(res, tree, rule: str, scope: str = "all") -> int:
             continue
         ax, roots = env_axes(ea)
         conflicts = ax.bind_conflicts()
-        sites = check_sites(ea, ax, conflicts) if scope in ("all", "mask", "generator") else []
+        sites = check_sites(ea, ax, conflicts) if scope in ("all", "mask", "generator", "observed") else []
         env = short(ea.cls.qual)
         seen = set()
+        obs_deps = None
+        if scope == "observed":
+            # ids of every term an emitted observation (reset or step) depends on
+            from ..terms import deps as _deps
+            from .stale import observation_leaves
+            obs_deps = set()
+            for ts in (ea.reset_ts, ea.step_ts):
+                for leaf in observation_leaves(ea, ts):
+                    obs_deps |= {d.id for d in _deps(leaf)}
         for s in sites:
             loc, fn, src = site_of(s["term"])
+            if obs_deps is not None and s["term"].id not in obs_deps:
+                continue
             if scope == "mask" and not any(h in fn.lower() for h in MASK_FUNC_HINTS):
                 continue
             if scope == "generator" and not any(h in fn for h in (".generator.", "maze_generation", "utils_spawn", "._sample", "create_flat_mine")):
